@@ -581,7 +581,8 @@ Section PipeRoot.
     exists (f_ino e), wd. split; [exact Hroot|].
     assert (H1 : RR C (f_ino e) wd k1 r1).
     { unfold add_watch in Ea. destruct (mem_nat (calls rinit0) (c_faults C)); [discriminate|].
-      unfold kadd_watch in Ea. rewrite El in Ea. simpl in Ea. inversion Ea; subst; clear Ea.
+      unfold kadd_watch in Ea. rewrite El in Ea. simpl in Ea.
+      rewrite ReaderFixProofs.unlabel_fresh in Ea by reflexivity. simpl in Ea. inversion Ea; subst; clear Ea.
       split; [|split].
       - split; simpl; [repeat constructor; intros [] | intros x [<-|[]]; simpl; lia].
       - exists {| kw_wd := 1; kw_ino := f_ino e; kw_mask := c_mask C |}. split; [|reflexivity].
